@@ -70,8 +70,21 @@ def descValid : Desc → Bool
 def contextError (i : Invocation P L S D) : Bool :=
   !i.cwdOk || !descValid i.desc || i.plat == .bad
 
+/-- the output at this path cannot be written: opening it fails (a directory is there) or the write itself fails (no space
+left). Either way "writing the output" did not happen, which is the property's *otherwise* branch. -/
 def blocked : Pre → Bool
   | .dir => true
+  | .writeFails => true
+  | _ => false
+
+/-- a write-time fault sits at this path -/
+def writeFails : Pre → Bool
+  | .writeFails => true
+  | _ => false
+
+def storeBlocked : StorePre → Bool
+  | .dir => true
+  | .writeFails => true
   | _ => false
 
 /-- the detect phase has an error: context assembly, the buildpack itself, or the plan cannot be written -/
@@ -90,7 +103,7 @@ def storeUnreadable : StorePre → Bool
 /-- some provided part of a build result cannot be written -/
 def writeBlocked (i : Invocation P L S D) (r : BuildOk L S D) : Bool :=
   (r.launch.isSome && blocked i.launchPre) ||
-  (r.store.isSome && i.storePre == .dir) ||
+  (r.store.isSome && storeBlocked i.storePre) ||
   r.bsboms.any (fun x => blocked (i.bPre x.1)) ||
   r.lsboms.any (fun x => blocked (i.lPre x.1))
 
@@ -102,6 +115,23 @@ def buildError (i : Invocation P L S D) : Bool :=
    | .err => true
    | .layerErr => true
    | .ok r => writeBlocked i r)
+
+/-- *Write fault*: the phase has an output to write (detection passed with a plan; the build result provides launch / store /
+an SBOM of some format) and writing that output fails at write time. The property: "exits 0 **after writing** …; otherwise
+calls the error handler once and exits with a status that is neither 0 nor 100 / non-zero" — an output whose write failed was
+not written, so this is the otherwise branch, whatever the size of the output and wherever in the sequence of outputs it
+comes. -/
+def writeFault (i : Invocation P L S D) : Bool :=
+  match i.exe with
+  | .detect => (match i.dbeh with
+    | .passPlan _ => writeFails i.planPre
+    | _ => false)
+  | .build => (match i.bbeh with
+    | .ok r =>
+      (r.launch.isSome && writeFails i.launchPre) || (r.store.isSome && i.storePre == .writeFails) ||
+      r.bsboms.any (fun x => writeFails (i.bPre x.1)) || r.lsboms.any (fun x => writeFails (i.lPre x.1))
+    | _ => false)
+  | .other => false
 
 /-- the SBOM the result provides for format `f`: the last one of that format (each one is written to the format's file) -/
 def providedSbom (f : Fmt) (l : List (Fmt × D)) : Option D :=
@@ -137,7 +167,11 @@ def checks [DecidableEq P] [DecidableEq L] [DecidableEq S] [DecidableEq D]
       [ ("mandatory variable missing: on_error not called exactly once", o.onError == 1),
         ("mandatory variable missing: exit status 0 or 100", decide (o.exit ≠ 0 ∧ o.exit ≠ 100)) ]
      else [])
-   else match i.exe with
+   else (if writeFault i then   -- judged from exit status and handler count alone
+      [ ("write of a provided output failed: on_error not called exactly once", o.onError == 1),
+        ("write of a provided output failed: exit status 0 or 100", decide (o.exit ≠ 0 ∧ o.exit ≠ 100)) ]
+     else []) ++
+    match i.exe with
     | .other => []   -- unreachable: a wrong executable name closes the gate
     | .detect =>
       [ ("build code ran in the detect phase", !o.buildRan) ] ++
